@@ -18,6 +18,10 @@ UNITS_LOCAL = {"C02": [
     Unit("tasks_internal_t2", ["harness/C02_tasks.cpp"], repo_src=_INT, cxx="g++", flags=TSAN_INSTR,
          defs=["RKCOMMON_TASKING_INTERNAL", "RKCOMMON_VERIF_SPIN_COUNT=2", "C02_POOL_THREADS=2"], mcsched=True, engine="mcsched",
          budget={"quick": 240, "thorough": 1500}, rule="internal backend, pool of 2: " + _RULE, assumptions=_ASSUME),
+    Unit("tasks_internal_pipe1", ["harness/C02_tasks.cpp"], repo_src=_INT, cxx="g++", flags=TSAN_INSTR,
+         defs=["RKCOMMON_TASKING_INTERNAL", "RKCOMMON_VERIF_SPIN_COUNT=2", "RKCOMMON_VERIF_PIPESIZE_LOG2=0", "C02_POOL_THREADS=2"], mcsched=True, engine="mcsched",
+         args={"quick": ["--only-prefix", "schedule_", "--only-prefix", "async_int"], "thorough": ["--only-prefix", "schedule_", "--only-prefix", "async_"]},
+         budget={"quick": 120, "thorough": 900}, rule="internal backend, pool of 2, 1-slot pipes (hook H2: the pipe wraps and fills with 2-3 scheduled tasks): " + _RULE, assumptions=_ASSUME),
     Unit("tasks_internal_t1", ["harness/C02_tasks.cpp"], repo_src=_INT, cxx="g++", flags=TSAN_INSTR,
          defs=["RKCOMMON_TASKING_INTERNAL", "RKCOMMON_VERIF_SPIN_COUNT=2", "C02_POOL_THREADS=1"], mcsched=True, engine="mcsched",
          budget={"quick": 120, "thorough": 600}, rule="internal backend, pool of 1 (no worker threads): " + _RULE, assumptions=_ASSUME),
